@@ -11,3 +11,5 @@ mv $V/build/expand/konst_kernel.rs.tmp $V/build/expand/konst_kernel.rs
 mv $V/build/expand/konst.rs.tmp $V/build/expand/konst.rs
 (cd $V/translator && CARGO_TARGET_DIR=$V/build/translator cargo build --offline -q)
 $V/build/translator/debug/rs2lean --src konst_kernel=$V/build/expand/konst_kernel.rs --src konst=$V/build/expand/konst.rs --targets $V/translator/targets.txt --out $V/lean/KonstVerif/Extracted/Gen
+# the failing-input search program follows the regenerated signatures (built and run only when an obligation breaks)
+python3 $V/translator/gen_search.py search > /dev/null 2>&1 || true
